@@ -142,11 +142,15 @@ func cmpConfigProblems(c *cmp.Config) (p []string, s *sharing) {
 			p = append(p, fmt.Sprintf("public entry of %q is nil", id))
 			continue
 		}
-		if _, ok := pointOf(pub.ECDSA); !ok {
+		if q, ok := pointOf(pub.ECDSA); !ok {
 			p = append(p, fmt.Sprintf("public entry of %q has no ECDSA share", id))
+		} else if q.Inf {
+			p = append(p, fmt.Sprintf("public ECDSA share of %q is the identity", id))
 		}
-		if _, ok := pointOf(pub.ElGamal); !ok {
+		if q, ok := pointOf(pub.ElGamal); !ok {
 			p = append(p, fmt.Sprintf("public entry of %q has no ElGamal key", id))
+		} else if q.Inf {
+			p = append(p, fmt.Sprintf("ElGamal key of %q is the identity", id))
 		}
 		if pub.Paillier == nil {
 			p = append(p, fmt.Sprintf("public entry of %q has no Paillier key", id))
